@@ -3,6 +3,8 @@ Model: lean/TapkeeVerif/Model/FibHeap.lean (+ FibHeapSpec.lean); theorems: Props
 harness: harness/c16_heap.cpp (real class, ASan+UBSan)."""
 import itertools
 import os
+import subprocess
+import time
 
 import vlib
 
@@ -156,8 +158,381 @@ def exhaustive_cases(maxlen, caps=(1, 2, 3), keys=(0, 1, 2)):
                 yield cap, list(ops)
 
 
-def case_line(cap, ops):
-    return "heap cap=%d ops=%s" % (cap, ",".join(ops))
+def case_line(cap, ops, dump=True):
+    return "heap cap=%d ops=%s%s" % (cap, ",".join(ops), " dump=1" if dump else "")
+
+
+def out_tokens(io):
+    """the per-operation output tokens of a harness/driver line `dn=.. | tokens | r=.. n=.. m=.. t=.. [| dump]`
+    (trace suffixes `/r:n:m` removed)"""
+    return [t.split("/")[0] for t in io.split("|")[1].split()]
+
+
+def parse_structure(io):
+    """(max rank, stored, marked, trees) of the final heap, None if the line has no structure segment"""
+    seg = io.split("|")
+    if len(seg) < 3:
+        return None
+    d = dict(t.split("=") for t in seg[2].split())
+    return int(d["r"]), int(d["n"]), int(d["m"]), int(d["t"])
+
+
+def parse_dump(io):
+    """{idx: (parent, rank, marked, key)} from a dump=1 line"""
+    seg = io.split("|")
+    nodes = {}
+    if len(seg) >= 4:
+        for t in seg[3].split():
+            i, p, r, m, k = t.split(":", 4)
+            nodes[int(i)] = (int(p), int(r), int(m), k)
+    return nodes
+
+
+# ----------------------------------------------------------------------------- implementation-guided search
+FIB = [0, 1]
+while len(FIB) < 80:
+    FIB.append(FIB[-1] + FIB[-2])
+
+
+class Session:
+    """one long-lived harness process answering one line per request (`heap …` opens a heap, `more …` continues on it);
+    a sanitizer abort / crash ends the process and shows as `None`"""
+
+    def __init__(self, binary):
+        e = dict(os.environ)
+        e.setdefault("ASAN_OPTIONS", "detect_leaks=0:abort_on_error=0:exitcode=97")
+        e.setdefault("UBSAN_OPTIONS", "print_stacktrace=1:exitcode=97")
+        self.p = subprocess.Popen([binary], stdin=subprocess.PIPE, stdout=subprocess.PIPE, stderr=subprocess.DEVNULL,
+                                  text=True, env=e, bufsize=1)
+
+    def ask(self, line):
+        try:
+            self.p.stdin.write(line + "\n")
+            self.p.stdin.flush()
+            out = self.p.stdout.readline()
+        except (BrokenPipeError, OSError):
+            return None
+        return out.rstrip("\n") if out.endswith("\n") else None
+
+    def close(self):
+        try:
+            self.p.stdin.close()
+        except OSError:
+            pass
+        try:
+            self.p.wait(timeout=5)
+        except subprocess.TimeoutExpired:
+            self.p.kill()
+        self.p.stdout.close()
+
+
+class Guide:
+    """a history under construction on the REAL heap: every step is executed by the harness process and the next
+    moves are chosen from the structure it reports (parent, rank, mark, key of every stored node)"""
+    BIG = 10 ** 6
+
+    def __init__(self, sess, cap, stats):
+        self.sess, self.cap, self.stats = sess, cap, stats
+        self.ops, self.nodes = [], {}
+        self.lo, self.hi = 0, self.BIG
+        self.dead = False
+        self.dn = None
+        self.best = (0, 0)          # (max rank seen, -stored nodes at that moment)
+
+    # -- execution
+    def do(self, ops):
+        if self.dead or not ops:
+            return not self.dead
+        head = ("heap cap=%d" % self.cap) if not self.ops else "more"
+        self.ops += ops
+        out = self.sess.ask("%s ops=%s trace=1 dump=1" % (head, ",".join(ops)))
+        if out is None:
+            self.dead = True
+            return False
+        seg = out.split("|")
+        self.dn = int(seg[0].split("=")[1])
+        st = self.stats
+        for t in seg[1].split():
+            r, n, m = (int(x) for x in t.split("/")[1].split(":"))
+            st["steps"] += 1
+            if (r, -n) > self.best:
+                self.best = (r, -n)
+            if n < st["heap_min_nodes"].get(r, 1 << 30):
+                st["heap_min_nodes"][r] = n
+        self.nodes = parse_dump(out)
+        self.observe()
+        return True
+
+    def observe(self):
+        """measured invariants of the real heap: rank = number of children, subtree size >= fib(rank + 2)"""
+        st = self.stats
+        kids = self.children()
+        size = {}
+        order = sorted(self.nodes, key=lambda v: -self.depth(v))
+        for v in order:
+            size[v] = 1 + sum(size.get(c, 1) for c in kids.get(v, []))
+        st["dumps"] += 1
+        for v, (p, r, m, k) in self.nodes.items():
+            st["nodes_checked"] += 1
+            if size[v] < st["tree_min_size"].get(r, 1 << 30):
+                st["tree_min_size"][r] = size[v]
+            if r != len(kids.get(v, [])) and "rank_violation" not in st:
+                st["rank_violation"] = {"ops": list(self.ops), "node": v, "rank": r, "children": len(kids.get(v, []))}
+            if FIB[min(r + 2, 79)] > size[v] and "degree_violation" not in st:
+                st["degree_violation"] = {"ops": list(self.ops), "node": v, "rank": r, "size": size[v]}
+
+    # -- structure
+    def children(self):
+        kids = {}
+        for v, (p, r, m, k) in self.nodes.items():
+            if p != -1:
+                kids.setdefault(p, []).append(v)
+        return kids
+
+    def depth(self, v):
+        d = 0
+        while v in self.nodes and self.nodes[v][0] != -1 and d <= self.cap:
+            v = self.nodes[v][0]
+            d += 1
+        return d
+
+    def free(self):
+        return [i for i in range(self.cap) if i not in self.nodes]
+
+    # -- moves
+    def newmin(self):
+        self.lo -= 1
+        return self.lo
+
+    def newbig(self):
+        self.hi += 1
+        return self.hi
+
+    def add(self, k=1):
+        return self.do(["i:%d:%d" % (i, self.newbig()) for i in self.free()[:k]])
+
+    def consolidate(self):
+        """insert a fresh minimum and extract it at once: everything in the root ring gets linked"""
+        fr = self.free()
+        if not fr:
+            return False
+        return self.do(["i:%d:%d" % (fr[0], self.newmin()), "x"])
+
+    def cut(self, vs):
+        """decrease below the minimum: the node is cut from its parent and stays in the heap as a root"""
+        return self.do(["d:%d:%d" % (v, self.newmin()) for v in vs])
+
+    def delete(self, vs):
+        ops = []
+        for v in vs:
+            ops += ["d:%d:%d" % (v, self.newmin()), "x"]
+        return self.do(ops)
+
+
+PRUNE_RULES = ["thin", "thin-del", "deepcut", "deepdel", "grandcut", "none"]
+
+
+def prune(g, P, r):
+    """one pruning pass chosen from the structure the implementation reports"""
+    rule = P["prune"]
+    nodes = g.nodes
+    kids = g.children()
+    if rule in ("thin", "thin-del"):
+        # textbook: every non-root node may lose ONE child (it gets marked); take its child of highest rank
+        vs = []
+        for u, (p, rk, m, k) in sorted(nodes.items()):
+            if p != -1 and not m and kids.get(u):
+                vs.append(max(kids[u], key=lambda c: (nodes[c][1], -c)))
+        if P["order"]:
+            vs.reverse()
+        return g.cut(vs) if rule == "thin" else g.delete(vs)
+    if rule == "deepcut":
+        # cut every node two or more levels below a root (what a correct heap answers with cascading cuts)
+        vs = sorted((v for v in nodes if g.depth(v) >= 2), key=lambda v: (g.depth(v), v), reverse=bool(P["order"]))
+        return g.cut(vs)
+    if rule == "grandcut":
+        vs = sorted(v for v in nodes if g.depth(v) == 2)
+        if P["order"]:
+            vs.reverse()
+        return g.cut(vs)
+    if rule == "deepdel":
+        for _ in range(8):
+            kids = g.children()
+            vs = [v for v in sorted(g.nodes) if g.depth(v) >= 2 and not kids.get(v)]
+            if not vs:
+                break
+            if not g.delete(vs):
+                return False
+        return True
+    return True
+
+
+def run_policy(g, P, r, deadline, max_rounds):
+    """rounds of: grow a little, force a consolidation, prune; stops at the deadline, on an abort, or when stuck"""
+    if P["fill"]:
+        g.add(max(0, len(g.free()) - 1 - P["spare"]))
+    for _ in range(max_rounds):
+        if g.dead or time.time() > deadline:
+            break
+        fr = len(g.free())
+        if fr > 1:
+            g.add(min(P["grow"], fr - 1))
+        elif fr == 0:
+            # full: remove the smallest-rank root that is not the only tree
+            roots = sorted((v for v in g.nodes if g.nodes[v][0] == -1), key=lambda v: (g.nodes[v][1], v))
+            if not roots or not g.delete(roots[:1]):
+                break
+        if not g.consolidate():
+            break
+        if not prune(g, P, r):
+            break
+        if P["noise"] and g.nodes and r.chance(P["noise"], 100):
+            v = r.choice(sorted(g.nodes))
+            if g.nodes[v][0] != -1:
+                (g.cut if r.chance(1, 2) else g.delete)([v])
+    return g
+
+
+def random_policy(r):
+    return {"prune": r.choice(PRUNE_RULES[:5]), "order": r.below(2), "grow": r.choice([1, 1, 2, 3]), "fill": r.below(2),
+            "spare": r.choice([0, 0, 2, 5]), "noise": r.choice([0, 0, 5, 20])}
+
+
+def mutate_policy(r, P):
+    Q = dict(P)
+    k = r.choice(sorted(Q))
+    Q[k] = random_policy(r)[k]
+    return Q
+
+
+# the deterministic adversarial generators: the textbook recipe (each non-root node loses exactly its highest-rank
+# child) and the "cut everything two levels down" pattern a correct heap must answer with cascading cuts
+FIXED_POLICIES = [
+    {"prune": "thin", "order": 0, "grow": 1, "fill": 0, "spare": 0, "noise": 0},
+    {"prune": "thin", "order": 0, "grow": 1, "fill": 1, "spare": 0, "noise": 0},
+    {"prune": "deepcut", "order": 0, "grow": 1, "fill": 0, "spare": 0, "noise": 0},
+    {"prune": "deepcut", "order": 1, "grow": 1, "fill": 1, "spare": 0, "noise": 0},
+    {"prune": "deepdel", "order": 0, "grow": 1, "fill": 0, "spare": 0, "noise": 0},
+    {"prune": "thin-del", "order": 0, "grow": 2, "fill": 0, "spare": 0, "noise": 0},
+]
+
+
+def guided_search(ctx, binary, caps, budget_s, slice_s):
+    """population / hill-climbing over (capacity, policy): every candidate is grown on the real heap under ASan;
+    survivors are the candidates that reached the highest rank with the fewest nodes; their policies are mutated.
+    Returns (per-capacity statistics, list of (cap, ops) that made the implementation abort, best histories)."""
+    r = ctx.rng.fork()
+    t_end = time.time() + budget_s
+    stats = {}
+    aborted, best_hist = [], {}
+    pool = [(cap, P) for P in FIXED_POLICIES for cap in caps]
+    pool = r.shuffle(pool)
+    scored = []
+    runs = 0
+    while time.time() < t_end:
+        if pool:
+            cap, P = pool.pop()
+        elif scored:
+            scored.sort(key=lambda x: x[0], reverse=True)
+            del scored[12:]
+            _, cap, P = r.choice(scored[:6])
+            P = mutate_policy(r, P)
+            if r.chance(1, 3):
+                cap = r.choice(caps)
+        else:
+            cap, P = r.choice(caps), random_policy(r)
+        st = stats.setdefault(cap, {"steps": 0, "dumps": 0, "nodes_checked": 0, "heap_min_nodes": {}, "tree_min_size": {},
+                                    "runs": 0, "aborts": 0})
+        sess = Session(binary)
+        g = Guide(sess, cap, st)
+        run_policy(g, P, r, min(t_end, time.time() + slice_s), 4 * cap + 200)
+        sess.close()
+        runs += 1
+        st["runs"] += 1
+        st["dn"] = g.dn
+        if g.dead:
+            st["aborts"] += 1
+            aborted.append((cap, list(g.ops), dict(P)))
+            if len(aborted) >= 3:
+                break
+        rank, negn = g.best
+        # thinness: how far above the Fibonacci bound the best tree of that rank is (smaller = thinner)
+        score = (rank - (g.dn or 1), rank, negn)
+        scored.append((score, cap, P))
+        if cap not in best_hist or score > best_hist[cap][0]:
+            best_hist[cap] = (score, list(g.ops), dict(P))
+    return stats, aborted, best_hist, runs
+
+
+def degree_violations(io):
+    """nodes of a dump=1 line whose subtree is smaller than fib(rank + 2), or whose rank is not their number of children"""
+    nodes = parse_dump(io)
+    kids = {}
+    for v, (p, r, m, k) in nodes.items():
+        if p != -1:
+            kids.setdefault(p, []).append(v)
+
+    def depth(v):
+        d = 0
+        while v in nodes and nodes[v][0] != -1 and d <= len(nodes):
+            v = nodes[v][0]
+            d += 1
+        return d
+    size = {}
+    for v in sorted(nodes, key=lambda v: -depth(v)):
+        size[v] = 1 + sum(size.get(c, 1) for c in kids.get(v, []))
+    return [(v, nodes[v][1], size[v]) for v in nodes
+            if FIB[min(nodes[v][1] + 2, 79)] > size[v] or nodes[v][1] != len(kids.get(v, []))]
+
+
+def guided_phase(ctx, binary):
+    quick = ctx.tier == "quick"
+    caps = [8, 13, 20, 21, 32, 33, 40, 54] if quick else [5, 8, 12, 13, 16, 20, 21, 25, 30, 32, 33, 34, 38, 40, 48, 54, 55, 64]
+    stats, aborted, best, runs = guided_search(ctx, binary, caps, 12.0 if quick else 150.0, 1.0 if quick else 4.0)
+    ctx.stat("guided-runs", runs)
+    report = {}
+    bound_ok = True
+    for cap in sorted(stats):
+        st = stats[cap]
+        ctx.stat("guided-steps", st["steps"])
+        tms = {r: n for r, n in sorted(st["tree_min_size"].items())}
+        ok = all(FIB[r + 2] <= n for r, n in tms.items()) and "rank_violation" not in st
+        bound_ok = bound_ok and ok
+        maxrank = max(st["heap_min_nodes"]) if st["heap_min_nodes"] else 0
+        report[str(cap)] = {"Dn": st.get("dn"), "runs": st["runs"], "operations": st["steps"], "max_rank_reached": maxrank,
+                            "min_stored_nodes_at_max_rank": {str(r): n for r, n in sorted(st["heap_min_nodes"].items())},
+                            "min_subtree_size_by_rank": {str(r): n for r, n in tms.items()},
+                            "fib_bound_by_rank": {str(r): FIB[r + 2] for r in tms},
+                            "nodes_checked": st["nodes_checked"], "degree_bound_holds": ok, "aborts": st["aborts"]}
+        if st.get("dn") is not None and maxrank >= st["dn"] and not st["aborts"]:
+            _, ops, _ = best[cap]
+            ctx.fail("rank>=Dn", "a node of the real heap reached rank %d >= Dn = %d at capacity %d: consolidate() indexed A[Dn]"
+                     % (maxrank, st["dn"], cap), case=case_line(cap, ops), detail={"stats": report[str(cap)]})
+    ctx.extra["guided_search"] = {"per_capacity": report, "degree_bound_fib(rank+2)<=size_measured_on_real_heap": bound_ok,
+                                  "policies": "textbook thin-tree recipe, cut-all-two-levels-down, delete-deep-leaves (deterministic), "
+                                              "then hill-climbing mutations of (capacity, policy)"}
+    # histories that made the real heap abort: failing inputs (judge shrinks the first of each signature)
+    for cap, ops, P in sorted(aborted, key=lambda a: len(a[1])):
+        judge(ctx, binary, [(cap, ops)], "guided-abort")
+    # a violated degree bound without an abort: the real heap left the proved invariant
+    if not aborted:
+        for cap in sorted(stats):
+            for key, what in (("degree_violation", "a node of rank %(rank)d heads only %(size)d nodes (< fib(rank+2))"),
+                              ("rank_violation", "a node has rank %(rank)d but %(children)d children")):
+                v = stats[cap].get(key)
+                if not v:
+                    continue
+
+                def failing(sub, cap=cap):
+                    out = ctx.run_impl_cases(binary, [case_line(cap, sub)])
+                    return bool(out) and not out[0].startswith("abort:") and bool(degree_violations(out[0]))
+                small = vlib.ddmin(v["ops"], failing, max_tests=120, budget_s=15.0)
+                ctx.broken("corr:" + key, "invariant Inv on the real heap (rank = children, size >= fib(rank+2))",
+                           "the real heap leaves the invariant proved for the model: " + what % v, case=case_line(cap, small),
+                           detail={k: v[k] for k in v if k != "ops"})
+                break
+    # the best history per capacity goes through the full model / implementation / specification comparison
+    judge(ctx, binary, [(cap, best[cap][1]) for cap in sorted(best) if not any(a[0] == cap for a in aborted)], "guided-best")
 
 
 # ----------------------------------------------------------------------------- correspondence
@@ -175,7 +550,7 @@ def judge(ctx, binary, cases, label):
         if io.startswith("abort:"):
             spec_lines.append("spec cap=%d ops=%s outs=" % (cap, ",".join(ops[:0])))
         else:
-            outs = io.split("|", 1)[1].split()
+            outs = out_tokens(io)
             spec_lines.append("spec cap=%d ops=%s outs=%s" % (cap, ",".join(ops), ",".join(outs)))
     rc, spec, err = ctx.run_model("model_c16", spec_lines)
     for (cap, ops), line, io, mo, so in zip(cases, lines, impl, model, spec):
@@ -227,7 +602,7 @@ def shrink(ctx, binary, cap, ops, pred):
     def failing(sub):
         out = ctx.run_impl_cases(binary, [case_line(cap, sub)])
         return bool(out) and pred(out[0])
-    return vlib.ddmin(ops, failing, max_tests=150)
+    return vlib.ddmin(ops, failing, max_tests=400, budget_s=40.0)
 
 
 def shrink_spec(ctx, binary, cap, ops):
@@ -235,7 +610,7 @@ def shrink_spec(ctx, binary, cap, ops):
         out = ctx.run_impl_cases(binary, [case_line(cap, sub)])
         if not out or out[0].startswith("abort:"):
             return False
-        outs = out[0].split("|", 1)[1].split()
+        outs = out_tokens(out[0])
         rc, sp, _ = ctx.run_model("model_c16", ["spec cap=%d ops=%s outs=%s" % (cap, ",".join(sub), ",".join(outs))])
         return bool(sp) and sp[0] != "spec-ok"
     return vlib.ddmin(ops, failing, max_tests=150)
@@ -275,6 +650,7 @@ def correspond(ctx):
                     corpus.append((int(fs["cap"]), fs["ops"].split(",")))
     if corpus:
         judge(ctx, binary, corpus, "corpus")
+    guided_phase(ctx, binary)
     ncases = 16000 if quick else 200000
     caps_small = [1, 2, 3, 4, 5, 6, 7, 8, 9, 12, 15, 16, 17, 31, 32, 33, 63, 64]
     batch = []
@@ -297,11 +673,15 @@ def correspond(ctx):
         ctx.extra["exhaustive_small"] = {"histories": len(ex), "capacities": "1..3 (len<=4), 4..5 (len<=3)", "keys": [0, 1, 2]}
     dn_sweep(ctx, binary, list(range(1, 2050 if quick else 5000)) + ([] if quick else [2 ** k + d for k in range(13, 21) for d in (-1, 0, 1)]))
     ctx.cov["rule"] = ("histories from 4 generators (uniform, guard-exercising, Dijkstra-shaped, thin-tree adversarial) over "
-                       "capacities 1..%d, lengths 1..%d, key alphabets 2..1000; non-trivial = contains an insert and an extract_min; "
-                       "distinct by case text" % (64 if quick else 400, 300 if quick else 1500))
+                       "capacities 1..%d, lengths 1..%d, key alphabets 2..1000, compared on outputs AND structure (parent, rank, mark, "
+                       "key of every stored node, num_trees); plus an implementation-guided search (deterministic thin-tree recipes and "
+                       "hill-climbing over policies, steered by the structure read from the real heap under ASan) whose best history "
+                       "per capacity is compared the same way; non-trivial = contains an insert and an extract_min; distinct by case text"
+                       % (64 if quick else 400, 300 if quick else 1500))
     ctx.assumptions += [
         "keys are non-NaN; Int keys in the model stand for any totally ordered key set (the heap only compares and copies keys)",
         "memory safety of the compiled code is observed by ASan/UBSan on the generated histories; the theorem no_oob is about the model's index d < Dn",
+        "the degree bound fib(rank+2) <= subtree size and rank = number of children are additionally MEASURED on the real heap for every node after every step of the guided search (evidence: guided_search)",
     ]
 
 
